@@ -66,6 +66,9 @@ def _last2(c):
 
 def panic_kind(x):
     c = callee(x) or ""
+    if c in ("core::convert::From::from", "core::convert::Into::into") and "chrono::datetime::DateTime" in (x.get("ty") or "") \
+            and any("time::SystemTime" in (a.get("ty") or "") for a in x.get("args", [])):
+        return "stdpanic:DateTime::from(SystemTime)"      # chrono: timestamp_opt(..).unwrap() - panics outside +-262000 years
     if _last2(c) in STD_VALUE_PANICS and not c.startswith("savefile"):
         return "stdpanic:" + _last2(c)
     if c in PANICS:
@@ -228,6 +231,16 @@ def t3(facts, tier):
     by_id = {g["id"]: g for g in rf}
     ctx_dep = set()
     err_dep = set()      # helpers reached from the Err arm of a read: a failing (truncated, unauthentic) stream reaches them
+    # closures that only run for an Err: `r.map_err(|e| ..)`, `r.or_else(|e| ..)`, `r.unwrap_or_else(|e| ..)`
+    for g in rf:
+        for y in walk(g["body"]):
+            if y.get("k") == "Call" and (callee(y) or "") in ("core::result::Result::map_err", "core::result::Result::or_else",
+                                                              "core::result::Result::unwrap_or_else"):
+                for a in y.get("args", [])[1:]:
+                    cl = peel(a)
+                    if cl.get("k") == "Closure" and cl.get("id") in by_id:
+                        ctx_dep.add(cl["id"])
+                        err_dep.add(cl["id"])
     for _round in range(3):
         for g in rf:
             gtv = gpm = None
